@@ -269,6 +269,15 @@ class Report:
         self.kf_seen = {}
         self.drift = []
         self.notes = {}
+        # replay files of earlier runs of this property are stale: every run writes its own
+        d = os.path.join(os.environ.get("VERIF_REPLAY_DIR", os.path.join(VERIF, "replays")), self.prop)
+        if os.path.isdir(d):
+            for fn in os.listdir(d):
+                if fn.endswith(".json"):
+                    try:
+                        os.remove(os.path.join(d, fn))
+                    except OSError:
+                        pass
 
     def add_tlc(self, r, label=None):
         self.cov["states"] += r.distinct
